@@ -27,10 +27,11 @@ CONSTANTS MaxN,        \* live servers
           Ops,         \* subset of {"select", "swap", "round"}
           StaleView,   \* TRUE: within a round swapShard sees the ensembles as they were at its start
           Export,      \* "none" | "cfg"
-          SampleMod    \* export 1 configuration out of SampleMod (1 = all)
+          SampleMod,   \* export 1 configuration out of SampleMod (1 = all) ...
+          SampleRes    \* ... namely those whose checksum is SampleRes modulo SampleMod
 
-VARIABLES stage, srv, pol, op, cur, view, todo, phase, acts, viol
-mvars == <<stage, srv, pol, op, cur, view, todo, phase, acts, viol>>
+VARIABLES stage, srv, pol, op, cur, view, todo, phase, viol
+mvars == <<stage, srv, pol, op, cur, view, todo, phase, viol>>
 
 Code(t) == t[1] * (MaxVal + 1) + t[2]
 Tuples == {<<a, b>> : a \in 0..MaxVal, b \in 0..MaxVal}
@@ -86,16 +87,16 @@ SwapLoad == [i \in 1..n |-> op.load[i] + (IF i \in Range(op.ens) THEN 1 ELSE 0)]
 RoundCfg == [Cfg EXCEPT !.useLoad = FALSE]
 
 MInit == /\ stage = "build" /\ srv = <<>> /\ pol = <<>> /\ op = NoOp
-         /\ cur = <<>> /\ view = <<>> /\ todo = {} /\ phase = 0 /\ acts = <<>> /\ viol = FALSE
+         /\ cur = <<>> /\ view = <<>> /\ todo = {} /\ phase = 0 /\ viol = FALSE
 
 AddServer == /\ stage = "build" /\ n < MaxN
              /\ \E t \in Tuples : /\ (IF srv = <<>> THEN TRUE ELSE Code(t) >= Code(srv[n]))
                                   /\ srv' = Append(srv, t)
-             /\ UNCHANGED <<stage, pol, op, cur, view, todo, phase, acts, viol>>
+             /\ UNCHANGED <<stage, pol, op, cur, view, todo, phase, viol>>
 ChoosePolicy == /\ stage = "build" /\ n >= 1 /\ ValueCanon
                 /\ \E p \in Policies : Relevant(p) /\ pol' = p
                 /\ stage' = "op"
-                /\ UNCHANGED <<srv, op, cur, view, todo, phase, acts, viol>>
+                /\ UNCHANGED <<srv, op, cur, view, todo, phase, viol>>
 ChooseOp == /\ stage = "op"
             /\ \E o \in OpsHere :
                  /\ op' = o
@@ -104,7 +105,7 @@ ChooseOp == /\ stage = "op"
                          /\ todo' = {it \in ((n + 1)..(n + Removed)) \X DOMAIN o.shards : it[1] \in Range(o.shards[it[2]])}
                     ELSE UNCHANGED <<cur, view, todo, phase>>
             /\ stage' = "exec"
-            /\ UNCHANGED <<srv, pol, acts, viol>>
+            /\ UNCHANGED <<srv, pol, viol>>
 
 (* one swapShard call of the round for work item <<node, shard index>> *)
 RoundSwap(item) ==
@@ -116,24 +117,23 @@ RoundSwap(item) ==
             THEN LET after == ReplaceInList(cur[i], from, o.to) IN
                  /\ cur' = [cur EXCEPT ![i] = after]
                  /\ view' = IF StaleView THEN view ELSE [view EXCEPT ![i] = ReplaceInList(view[i], from, o.to)]
-                 /\ acts' = Append(acts, [shard |-> i, from |-> from, to |-> o.to])
                  /\ viol' = (viol \/ (Distinct(cur[i]) /\ ~ValidSwap(cur[i], from, o.to, after, Cfg)))
-            ELSE UNCHANGED <<cur, view, acts, viol>>
+            ELSE UNCHANGED <<cur, view, viol>>
 RoundStep ==
     /\ stage = "exec" /\ op.kind = "round"
     /\ \/ /\ \E item \in todo : RoundSwap(item)
           /\ UNCHANGED <<phase, stage>>
        \/ /\ phase = 2                             \* balanceHighestNode may pass over a shard
           /\ \E item \in todo : todo' = todo \ {item}
-          /\ UNCHANGED <<phase, stage, cur, view, acts, viol>>
+          /\ UNCHANGED <<phase, stage, cur, view, viol>>
        \/ /\ todo = {} /\ phase = 1               \* cleanDeletedNode is through: balanceHighestNode picks one node
           /\ \E h \in 1..n :
                /\ todo' = {<<h, i>> : i \in {j \in DOMAIN view : h \in Range(view[j])}}
                /\ todo' # {}
-          /\ phase' = 2 /\ UNCHANGED <<cur, view, acts, viol, stage>>
+          /\ phase' = 2 /\ UNCHANGED <<cur, view, viol, stage>>
        \/ /\ (todo = {} \/ phase = 2)             \* balanced (or the loop condition ends the round)
           /\ stage' = "done"
-          /\ UNCHANGED <<todo, phase, cur, view, acts, viol>>
+          /\ UNCHANGED <<todo, phase, cur, view, viol>>
     /\ UNCHANGED <<srv, pol, op>>
 
 MNext == AddServer \/ ChoosePolicy \/ ChooseOp \/ RoundStep
@@ -166,6 +166,6 @@ RECURSIVE SumPol(_, _)
 SumPol(p, i) == IF i > Len(p) THEN 0 ELSE (5 * i) * (SumSeq(p[i].labels, 1) + (IF p[i].strict THEN 3 ELSE 0)) + SumPol(p, i + 1)
 Mix(s, p, o) == SumCodes(s, 1) + SumPol(p, 1) + 7 * o.rf + SumSeq(o.load, 1) + (IF o.useLoad THEN 0 ELSE 11)
                 + 13 * SumSeq(o.ens, 1) + 17 * o.from + SumShards(o.shards, 1)
-ExportCfg == (Export = "cfg" /\ stage = "op" /\ stage' = "exec" /\ Mix(srv, pol, op') % SampleMod = 0) =>
+ExportCfg == (Export = "cfg" /\ stage = "op" /\ stage' = "exec" /\ Mix(srv, pol, op') % SampleMod = SampleRes) =>
                 PrintT(<<"CFG", ToJson([lab |-> srv, pol |-> pol, claim |-> SingleLabelRules([pol |-> pol])] @@ op')>>)
 =============================================================================
